@@ -1264,6 +1264,11 @@ class vRecur(CaselessDict):
             if not isinstance(v, SEQUENCE_TYPES):
                 kwargs[k] = [v]
         super().__init__(*args, **kwargs)
+        for k, v in self.items():
+            # a rule part given as a single value is the list of that value,
+            # as for the keyword arguments and for parsed rules
+            if not isinstance(v, SEQUENCE_TYPES):
+                self[k] = [v]
         self.params = Parameters(params)
 
     def to_ical(self):
